@@ -1,6 +1,7 @@
 import PdfModel.Core.Proto
 import PdfModel.Model.Widths
 import PdfModel.Model.CMap
+import PdfModel.Spec.CMapSpellCheck
 
 /-! Line-protocol handler for the C19 streams. Width values are f32 bit patterns (decimal).
 
@@ -13,6 +14,10 @@ import PdfModel.Model.CMap
   c19.simple <first> <w,w,…|-|none> <codes> [@tag]       → `ok <bits>,…`
   c19.parse <hex> [@tag]        → `ok cid=u+u,cid=…` (sorted by cid, newest binding; `-` for the empty map) | err | unmodelled | oof
   c19.write <cid=u+u;cid=…|-> [@tag]   → `ok <hex>` | panic
+  statement side (certifies that what the harness generated lies in the domain of `cmap_reads_spelling`):
+  c19.conf <entries|-> <hex> [@tag]    → `1` if the text is a conformant spelling of the entries (sound checker
+                                          `spellsCheck`), else `0`
+      entries `;`-separated: c:<cid>:<str> | s:<lo>:<str>|<str>|… | a:<lo>:<str>|<str>|… ; str = u+u+… or `e` (empty)
 -/
 
 namespace DrvC19
@@ -62,6 +67,16 @@ def parseEntry (s : String) : Option CMap.Entry :=
     some (k, v)
   | _ => none
 
+def parseUStr (s : String) : Option (List Nat) :=
+  if s == "e" then some [] else mapM? natOf (s.splitOn "+")
+
+def parseEnt (s : String) : Option CMap.Ent :=
+  match s.splitOn ":" with
+  | ["c", cid, str] => do some (.char (← natOf cid) (← parseUStr str))
+  | ["s", lo, strs] => do some (.rstr (← natOf lo) (← mapM? parseUStr (strs.splitOn "|")))
+  | ["a", lo, strs] => do some (.rarr (← natOf lo) (← mapM? parseUStr (strs.splitOn "|")))
+  | _ => none
+
 def dropTag (args : List String) : List String :=
   match args.getLast? with
   | some t => if t.startsWith "@" then args.dropLast else args
@@ -89,6 +104,10 @@ def handle (args : List String) : String :=
       | .unmodelled => "unmodelled"
       | .oof => "oof"
     | none => "bad-request"
+  | ["c19.conf", entries, hex] =>
+    match (if entries == "-" then some [] else mapM? parseEnt (entries.splitOn ";")), bytesOfHex hex with
+    | some es, some bs => showBool (CMap.spellsCheck es bs)
+    | _, _ => "bad-request"
   | ["c19.write", entries] =>
     match (if entries == "-" then some [] else mapM? parseEntry (entries.splitOn ";")) with
     | some es =>
